@@ -206,6 +206,15 @@ OrderMenu ==
   \cup {Agg(<<KeyK, SumV, MaxK>>, <<K>>, NoE, HAgg(CountStar, ">", IntV(1)), FALSE, NoLimit, "none"), CombineStmt,
         Agg(<<ItE("sum", Lit(MaxV(0)), "big"), ItE("sum", V, "s")>>, <<>>, NoE, NoH, FALSE, NoLimit, "none")}
 
+\* aggregates over an arithmetic expression that leaves the 64-bit range on one row of a group and not on the others: an error for every order of the rows
+\* (never a result that depends on which kind of row the group saw first)
+LinesOvf == {KV(A, MaxV(0)), KV(A, IntV(3)), KV(A, IntV(-2)), KV(B, MinV(0)), KV(B, IntV(1))}
+OverflowAggMenu ==
+  {Agg(<<KeyK, ItE(a, Arith("*", V, Two), "x")>>, <<K>>, NoE, NoH, FALSE, NoLimit, "none") : a \in {"sum", "avg", "min", "max"}}
+  \cup {Agg(<<ItE("sum", Arith("+", V, One), "x"), CountStar>>, <<>>, NoE, NoH, FALSE, NoLimit, "none"),
+        Agg(<<ItE("avg", Arith("-", V, Two), "x")>>, <<>>, NoE, NoH, FALSE, NoLimit, "none"),
+        Agg(<<KeyK>>, <<K>>, NoE, HAgg(ItE("sum", Arith("*", V, Two), "x"), ">", IntV(0)), FALSE, NoLimit, "none")}
+
 \* C09 / C03: operators, functions, subscripts and casts on boundary values (64-bit extremes, zero divisors, NaN / infinities / -0.0)
 BInts == {MinV(0), MinV(1), IntV(-1), IntV(0), IntV(1), IntV(2), IntV(63), IntV(64), MaxV(-1), MaxV(0)}
 BReals == {RealV(3, 2), RealV(0, 1), NZero, NaN, PInf, NInf, RealV(-1, 4)}
